@@ -58,20 +58,7 @@ def steer(case):
     if case['form'] in ('series', 'series2'):
         if any(x is not None and '\x00' in x for x in case['examples']):
             case['form'] = 'list'
-    # pdextract always uses the default (portable) dialect
-    portable = (case['form'] in ('series', 'series2')
-                or case['opts']['dialect'] in ('portable', 'grep'))
-    if case.pop('avoid_known') and portable:
-        xs = []
-        changed = False
-        for x in case['examples']:
-            if x is not None and has_nonascii_decimal(x):
-                x = ''.join(ASCII_FOR.get(c, c) for c in x)
-                changed = True
-            xs.append(x)
-        if changed:
-            case['examples'] = xs
-            steered.append(F_NONASCII_DECIMAL)
+    case.pop('avoid_known')
     case['steered'] = steered
     return case
 
@@ -170,13 +157,8 @@ def run(case, ctx):
         return out
     dialect = eff['opts'].get('dialect', 'portable')
     for x in unmatched:
-        if has_nonascii_decimal(x) and dialect in ('portable', 'grep'):
-            out.known_hit(F_NONASCII_DECIMAL,
-                          'unmatched %r; rexes %r' % (x, rexes))
-        elif sampling:
-            out.known_hit(F_SAMPLING, 'unmatched %r; rexes %r' % (x, rexes))
-        else:
-            feats = []
+        if True:
+            feats = ['sampling'] if sampling else []
             if any(c in x for c in '^-]\\'):
                 feats.append('bracket-specials')
             if eff['opts'].get('strip'):
